@@ -55,6 +55,7 @@ class Contract:
         self.pure = False
         self.native = {}
         self.refines = []
+        self.nofacts = set()        # side facts of these spec functions are NOT assumed (used to prove the facts themselves)
         self.forget = set()         # callee postconditions mentioning these spec functions are not assumed (coarser, faster)
         self.local_types = {}       # declared types of local containers the engine cannot track (lists built in loops)
         self.use_abstract = set()  # callee method names resolved to the abstract contract of the base class
@@ -209,6 +210,8 @@ class Registry:
         fname = func.name + '__facts'
         ff = self.spec_functions.get(fname)
         if ff is None:
+            return []
+        if I.current_contract is not None and func.name in I.current_contract.nofacts:
             return []
         from .interp import Frame
         fr = Frame(ff, {}, ff.module)
@@ -399,6 +402,9 @@ class Registry:
                 elif n == 'native':
                     for k in call.keywords:
                         c.native[k.arg] = k.value
+                elif n == 'nofacts':
+                    for x in call.args:
+                        c.nofacts.add(ast.literal_eval(x))
                 elif n == 'forget':
                     for x in call.args:
                         c.forget.add(ast.literal_eval(x))
